@@ -437,11 +437,10 @@ def step [Zero α] [One α] [Div α] [NatCast α] (p : Pool α) : Op α → Outc
       match p dst, p src with
       | some x, some r =>
         if x.kind = Kind.ps ∧ r.kind = Kind.ps then
-          -- `a += a`: `rhs.state_` is the already enlarged `state_`, the first assignment asserts
-          if dst = src then (if 1 ≤ x.components then Outcome.assert else Outcome.skip)
-          else match concat x r with
-            | some y => Outcome.ok (p.set dst y)
-            | none => Outcome.assert
+          -- `a += a` works on a copy of the right-hand side: `r` is then `x` itself
+          match concat x r with
+          | some y => Outcome.ok (p.set dst y)
+          | none => Outcome.assert
         else Outcome.skip
       | _, _ => Outcome.skip
   | Op.concatPlus dst a b =>
